@@ -107,6 +107,14 @@ pub trait Property {
     fn sample_limit(&self) -> usize {
         5
     }
+    /// libFuzzer target (in /verif/fuzz) that attacks this property in the thorough tier.
+    fn fuzz_target(&self) -> Option<&'static str> {
+        None
+    }
+    /// Decode a libFuzzer input of that target into a case, to be re-judged by `check`.
+    fn decode_fuzz(&self, _bytes: &[u8]) -> Option<Self::Case> {
+        None
+    }
     /// Build a case from a program text (for hand-written regression cases).
     fn case_from_text(&self, _program: &str, _input: &[u8], _bits: u32, _sel: [u32; 5]) -> Option<Self::Case> {
         None
@@ -158,7 +166,9 @@ pub fn seed_bytes(seed: u64, id: &str, shard: usize) -> [u8; 32] {
 
 pub fn run_shard<P: Property>(p: &P, tier: Tier, seed: u64, shard: usize, shards: usize) -> ShardReport {
     let t0 = Instant::now();
-    let total = p.cases(tier);
+    // VERIF_CASE_SCALE (default 1) scales the fixed case counts, e.g. for a longer soak or a smoke test
+    let scale: f64 = std::env::var("VERIF_CASE_SCALE").ok().and_then(|s| s.parse().ok()).unwrap_or(1.0);
+    let total = (p.cases(tier) as f64 * scale) as u64;
     let cases = (total / shards as u64 + if (shard as u64) < total % shards as u64 { 1 } else { 0 }) as u32;
     let rep = RefCell::new(ShardReport { shard, ..Default::default() });
     let hashes = RefCell::new(BTreeSet::<u64>::new());
@@ -657,6 +667,22 @@ pub fn drive<P: Property>(p: &P, o: &DriveOpts) -> i32 {
         }
     }
 
+    // ---- coverage-guided tier (thorough only): libFuzzer campaign, crashes re-judged by the normal check
+    let mut fuzz_info = serde_json::json!(null);
+    if o.tier == Tier::Thorough && violations.is_empty() {
+        if let Some(target) = p.fuzz_target() {
+            let (info, found, errs) = run_fuzz(p, target, o);
+            fuzz_info = info;
+            infra_errors.extend(errs);
+            for f in found {
+                let h = fnv(&serde_json::to_string(&f.case).unwrap());
+                let path = o.verif_dir.join("findings").join(id).join(format!("{:016x}.json", h));
+                write_json(&path, &serde_json::json!({"property": id, "kind": f.kind, "detail": f.detail, "profile": "release", "seed": o.seed, "found_by": format!("libFuzzer target {target}"), "case": f.case}));
+                violations.push((path.to_string_lossy().to_string(), format!("{}: {}", f.kind, f.detail)));
+            }
+        }
+    }
+
     // ---- floors
     let mut floor_misses = vec![];
     if violations.is_empty() {
@@ -684,6 +710,9 @@ pub fn drive<P: Property>(p: &P, o: &DriveOpts) -> i32 {
         "inconclusive_cases": inconclusive,
         "shards": plan.len(),
     });
+    if !fuzz_info.is_null() {
+        coverage["libfuzzer"] = fuzz_info;
+    }
     if let Some(e) = p.exhaustive(o.tier) {
         coverage["exhaustive"] = serde_json::json!(e);
     }
@@ -769,4 +798,108 @@ pub fn replay_file<P: Property>(p: &P, path: &str) -> i32 {
             0
         }
     }
+}
+
+
+/// Run a bounded libFuzzer campaign (8 processes, own corpus copies, `-seed` derived from the
+/// run's seed) on a pre-built target; every crash input is decoded into a case and re-judged
+/// by the property's normal `check` (fork-isolated). Only confirmed failures are findings.
+fn run_fuzz<P: Property>(p: &P, target: &str, o: &DriveOpts) -> (serde_json::Value, Vec<Finding>, Vec<String>) {
+    let mut errs = vec![];
+    let bin = o.verif_dir.join("fuzz/target/x86_64-unknown-linux-gnu/release").join(target);
+    if !bin.exists() {
+        errs.push(format!("fuzz target {} is not built (./check builds it in the thorough tier)", bin.display()));
+        return (serde_json::json!({"target": target, "built": false}), vec![], errs);
+    }
+    let secs: u64 = std::env::var("VERIF_FUZZ_SECS").ok().and_then(|s| s.parse().ok()).unwrap_or(240);
+    let jobs = 8usize;
+    let work = o.verif_dir.join("harness/target/fuzz-work").join(format!("{}-{}", target, std::process::id()));
+    let _ = std::fs::remove_dir_all(&work);
+    let mut children = vec![];
+    for j in 0..jobs {
+        let dir = work.join(format!("job{j}"));
+        let corpus = dir.join("corpus");
+        let _ = std::fs::create_dir_all(&corpus);
+        // seed corpus: pseudo-random byte strings (full length from the start) plus an empty input
+        let mut x = fnv(&format!("{}/{}/{}", o.seed, target, j)) | 1;
+        for k in 0..24 {
+            let mut bytes = vec![];
+            for _ in 0..(64 + 16 * k) {
+                x ^= x << 13;
+                x ^= x >> 7;
+                x ^= x << 17;
+                bytes.push((x >> 24) as u8);
+            }
+            let _ = std::fs::write(corpus.join(format!("seed{k}")), bytes);
+        }
+        let log = std::fs::File::create(dir.join("log.txt")).expect("fuzz log");
+        let child = std::process::Command::new(&bin)
+            .arg(&corpus)
+            .arg(format!("-max_total_time={secs}"))
+            .arg(format!("-seed={}", (o.seed.wrapping_mul(31).wrapping_add(j as u64 + 1)) & 0x7fff_ffff))
+            .arg("-len_control=0")
+            .arg("-max_len=1024")
+            .arg("-timeout=20")
+            .arg("-rss_limit_mb=4096")
+            .arg(format!("-artifact_prefix={}/", dir.display()))
+            .stdin(std::process::Stdio::null())
+            .stdout(std::process::Stdio::null())
+            .stderr(log)
+            .spawn();
+        match child {
+            Ok(c) => children.push((j, dir, c)),
+            Err(e) => errs.push(format!("cannot start {}: {e}", bin.display())),
+        }
+    }
+    let mut executions = 0u64;
+    let mut crash_files = vec![];
+    for (_, dir, mut c) in children {
+        let _ = c.wait();
+        if let Ok(log) = std::fs::read_to_string(dir.join("log.txt")) {
+            for l in log.lines() {
+                if let Some(rest) = l.strip_prefix("Done ") {
+                    executions += rest.split_whitespace().next().and_then(|n| n.parse::<u64>().ok()).unwrap_or(0);
+                } else if l.starts_with("stat::number_of_executed_units:") {
+                    // printed on crash instead of the "Done" line
+                    executions += l.rsplit(' ').next().and_then(|n| n.parse::<u64>().ok()).unwrap_or(0);
+                }
+            }
+        }
+        if let Ok(rd) = std::fs::read_dir(&dir) {
+            for e in rd.filter_map(|e| e.ok()) {
+                let name = e.file_name().to_string_lossy().to_string();
+                if name.starts_with("crash-") || name.starts_with("timeout-") || name.starts_with("oom-") {
+                    crash_files.push(e.path());
+                }
+            }
+        }
+    }
+    let mut found: Vec<Finding> = vec![];
+    let mut unconfirmed = 0;
+    for f in &crash_files {
+        let bytes = std::fs::read(f).unwrap_or_default();
+        let Some(case) = p.decode_fuzz(&bytes) else {
+            unconfirmed += 1;
+            continue;
+        };
+        let mut scratch = Stats::default();
+        match p.check(&case, &mut scratch) {
+            Outcome::Fail(fl) => {
+                MIN_DEADLINE.with(|d| d.set(Some(Instant::now() + std::time::Duration::from_secs(120))));
+                let case = p.minimize(case, &fl);
+                MIN_DEADLINE.with(|d| d.set(None));
+                let v = serde_json::to_value(&case).unwrap();
+                if !found.iter().any(|x| x.case == v) {
+                    found.push(Finding { kind: fl.kind, detail: fl.detail, case: v, unshrunk: None });
+                }
+            }
+            _ => unconfirmed += 1,
+        }
+    }
+    let _ = std::fs::remove_dir_all(&work);
+    (
+        serde_json::json!({"target": target, "built": true, "processes": jobs, "seconds_each": secs, "executions": executions, "crash_inputs": crash_files.len(), "confirmed_by_the_normal_check": found.len(), "not_reproduced_through_the_normal_check": unconfirmed}),
+        found,
+        errs,
+    )
 }
